@@ -368,15 +368,17 @@ class Interp:
     # -- flow ------------------------------------------------------------------------------------
     async def op_INTERVAL(self, act, pc, period, n, bodies, pre=None):
         """async for over interval(period); i-th body run is bodies[i]; leave after n ticks.
-        pre: create the iterator first, then wait `pre`, then iterate"""
-        ctx = self.ctx
-        count = 0
-        it = interval(period)
+        pre: create the iterator first and keep it in a variable, then wait `pre`, then iterate"""
         if pre:
+            it = interval(period)
             await (time + pre)
-        ctx.rec('iter-begin', act, pc, None)
-        async for now in it:
-            ctx.rec('tick', act, pc, now)
+            self.ctx.rec('iter-begin', act, pc, None)
+            return await self._ticks(act, pc, it, n, bodies)
+        self.ctx.rec('iter-begin', act, pc, None)
+        # (no variable refers to the iterator: it is finalised as soon as this frame is left, however that happens)
+        count = 0
+        async for now in interval(period):
+            self.ctx.rec('tick', act, pc, now)
             body = bodies[count] if count < len(bodies) else []
             count += 1
             await self.block(act, body, pc + ('b', count))
@@ -385,14 +387,26 @@ class Interp:
         return count
 
     async def op_DELAYLOOP(self, act, pc, period, n, bodies, pre=None):
-        ctx = self.ctx
-        count = 0
-        it = delay(period)
         if pre:
+            it = delay(period)
             await (time + pre)
-        ctx.rec('iter-begin', act, pc, None)
+            self.ctx.rec('iter-begin', act, pc, None)
+            return await self._ticks(act, pc, it, n, bodies)
+        self.ctx.rec('iter-begin', act, pc, None)
+        count = 0
+        async for now in delay(period):
+            self.ctx.rec('tick', act, pc, now)
+            body = bodies[count] if count < len(bodies) else []
+            count += 1
+            await self.block(act, body, pc + ('b', count))
+            if count >= n:
+                break
+        return count
+
+    async def _ticks(self, act, pc, it, n, bodies):
+        count = 0
         async for now in it:
-            ctx.rec('tick', act, pc, now)
+            self.ctx.rec('tick', act, pc, now)
             body = bodies[count] if count < len(bodies) else []
             count += 1
             await self.block(act, body, pc + ('b', count))
